@@ -36,6 +36,8 @@ def run(chk, facts_dir, tier):
         term = fev._rvalue(s["rv"], (i, j), 0)
         if has_param(term, "flushed_offset") and has_call(term, lambda n: n.endswith("::min")):
             chk.ok("R18.1", "valid_len = min(bytes read, flushed_offset - buffer start)", fb.where(s["line"]))
+        elif _bounded_by_branches(prog, fb, fev, s):
+            chk.ok("R18.1", "valid_len = if read < flushed { read } else { flushed } (every alternative is the flushed bound or is compared below it)", fb.where(s["line"]))
         else:
             chk.fail("R18.1", RAB + "fill", "valid-beyond-flushed", "the read-ahead buffer marks bytes as valid without bounding them by the flushed offset (%s): bytes beyond it "
                      "are not final and are later served stale" % show(term)[:80], fb, s["line"])
@@ -122,3 +124,63 @@ def run(chk, facts_dir, tier):
     else:
         chk.fail("R18.3", sb.path, "flushed-set-public", "FlushedOffset::set is public: code outside seglog can declare unflushed bytes immutable", sb)
     return {}
+
+
+def _root(body, l):
+    for _ in range(8):
+        ds = [d for d in body.defs.get(l, []) if not d[2]["p"]]
+        if len(ds) != 1 or ds[0][3]["k"] != "use":
+            break
+        p = op_place(ds[0][3]["op"])
+        if p is None or p["p"]:
+            break
+        l = p["l"]
+    return l
+
+
+def _bounded_by_branches(prog, body, ev, store):
+    """the stored value is a local whose every definition is either derived from the flushed offset or made on the edge of a
+    comparison `that value < / <= (something derived from the flushed offset)`"""
+    rv = store["rv"]
+    if rv["k"] != "use":
+        return False
+    p = op_place(rv["op"])
+    if p is None or p["p"]:
+        return False
+    l = _root(body, p["l"])
+    defs = [d for d in body.defs.get(l, []) if not d[2]["p"]]
+    if len(defs) < 2:
+        return False
+    cmps = []
+    for bi, si, st in body.assigns():
+        r = st["rv"]
+        if r["k"] == "bin" and r["o"] in ("Lt", "Le", "Gt", "Ge"):
+            sw = switch_on(body, bi, st["lhs"]["l"])
+            if sw:
+                cmps.append((bi, si, r, sw))
+    for (bi, si, lhs, drv) in defs:
+        term = ev._rvalue(drv, (bi, si), 0)
+        if has_param(term, "flushed_offset"):
+            continue
+        if drv["k"] != "use" or op_place(drv["op"]) is None or op_place(drv["op"])["p"]:
+            return False
+        src = _root(body, op_place(drv["op"])["l"])
+        ok = False
+        for (cb, cs, r, sw) in cmps:
+            pa, pb = op_place(r["a"]), op_place(r["b"])
+            if pa is None or pb is None or pa["p"] or pb["p"]:
+                continue
+            ra, rb = _root(body, pa["l"]), _root(body, pb["l"])
+            ta, tb = ev.operand(r["a"], (cb, cs)), ev.operand(r["b"], (cb, cs))
+            o = r["o"]
+            if ra == src and has_param(tb, "flushed_offset"):
+                edge = sw[0] if o in ("Lt", "Le") else sw[1]          # src < F on the true edge of Lt/Le, on the false edge of Gt/Ge
+            elif rb == src and has_param(ta, "flushed_offset"):
+                edge = sw[0] if o in ("Gt", "Ge") else sw[1]          # F > src
+            else:
+                continue
+            if edge_dominates(body, cb, edge, bi):
+                ok = True
+        if not ok:
+            return False
+    return True
